@@ -117,7 +117,7 @@ PROPS = {}
 PROPS['C06'] = {
     'level': 'model_checking',
     'technique': 'explicit-state BFS over the real GenericArrayIter (replayed operation histories, canonical (origin, front, len) state key) against VecDeque and [T;N]::into_iter() reference models',
-    'parts': [engine_part('iter-bfs', 'e_iter', 'C06', shards_quick=4, shards_thorough=NCPU, asan='quick')],
+    'parts': [engine_part('iter-bfs', 'e_iter', 'C06', shards_quick=4, shards_thorough=NCPU, asan='quick', miri=True, miri_args=['--maxn', '3'])],
     'rule': ("BFS from GenericArray::into_iter() for every K in 0..=8 (thorough: also 9..=17, 31..=33 complete, 64, 100 and 255..=257 with the argument lattice "
              "{0,1,2,len-1,len,len+1,usize::MAX}) and element sizes 0/4/24 bytes; from every reachable state (origin fresh|clone-at-len, physical front index, len) every operation "
              "next, next_back, nth(k), nth_back(k) for k in 0..=len+2 and usize::MAX, clone, as_mut_slice()[j]=new for every j, plus the consuming operations fold, rfold, count, last, collect, "
@@ -199,7 +199,7 @@ PROPS['C16'] = {
 PROPS['C02'] = {
     'level': 'exploration',
     'technique': 'bounded exhaustive enumeration of (N, source length L, entry point, element type) and of the shared/mutable view matrix on the real code, with pointer/length oracles on canaried buffers',
-    'parts': [engine_part('views', 'e_views', 'C02', shards_quick=2, asan='thorough')],
+    'parts': [engine_part('views', 'e_views', 'C02', shards_quick=2, asan='thorough', miri=True, miri_args=['--maxn', '5'])],
     'rule': ("length gate: N in {0..13,15,16,17,31,32,33,64,100,255,256,1000,1024} x every L in 0..=N+2 (N<=13) or {0,1,N-1,N,N+1,2N} x {from_slice, try_from_slice, TryFrom<&[T]>, from_mut_slice, try_from_mut_slice, TryFrom<&mut [T]>} x element in "
              "{u8, u64, (), 4-byte tracked, zero-sized tracked, 16-byte/16-aligned, padded (u8,u16)}; the source is the middle of a larger buffer with canary elements; oracle: accepted iff L == N (documented panic / LengthError otherwise), accepted view = "
              "(address of the source, N), contents in order, writes through mutable views land in the source, canaries untouched. View matrix per (N, element): nine shared views must all be (array address, N) with the elements in order; through each of eight "
@@ -212,7 +212,7 @@ PROPS['C02'] = {
 PROPS['C10'] = {
     'level': 'exploration',
     'technique': 'bounded exhaustive enumeration of (N, slice length L, shared/mutable, element type) for the chunk functions on the real code with pointer/length oracles; the same calls are also run inside the const evaluator by the C18 corpus',
-    'parts': [engine_part('chunks', 'e_views', 'C10', shards_quick=2, asan='thorough')],
+    'parts': [engine_part('chunks', 'e_views', 'C10', shards_quick=2, asan='thorough', miri=True, miri_args=['--maxn', '8'])],
     'rule': ("N in {0,1,2,3,7,8,16,17,33,64,100,1024} x every L in 0..=4N+3 (N>=100: {0,1,N-1,N,N+1,2N-1,2N,2N+1,4N+3}) x {chunks_from_slice, chunks_from_slice_mut} x element in {u8, padded (u8,u16), u64, (), 16-aligned, tracked}; oracle: parts are "
              "(src, L/N) and (src + (L/N)*N*size, L mod N), element [c][j] == src[c*N+j], slice_from_chunks(_mut) of the chunk part is (src, (L/N)*N), writes through each mutable part land at that source index, canaries untouched; N = 0: empty -> two empty "
              "results, non-empty -> the documented panic. from_chunks/into_chunks(_mut) for chunk counts 0..=5: same address and count, writes visible. For zero-sized elements also L in {2^32-2, 2^32-1, 2^32, 2^32+7, 2^33+1, 2^40+N+1, isize::MAX} (lengths only). Non-trivial = L > 0."),
@@ -223,7 +223,7 @@ PROPS['C10'] = {
 PROPS['C11'] = {
     'level': 'exploration',
     'technique': 'bounded exhaustive enumeration of (N, M, owned/&/&mut, element type) for flatten/unflatten on the real code with identity, ledger and address oracles',
-    'parts': [engine_part('regroup', 'e_views', 'C11', shards_quick=1, asan='thorough')],
+    'parts': [engine_part('regroup', 'e_views', 'C11', shards_quick=1, asan='thorough', miri=True)],
     'rule': ("every (N, M) in 0..=6 x 0..=6 (unflatten: N >= 1) plus (1,1024), (1024,1), (16,64), (3,100), (7,9) x {owned, &, &mut} x element in {4-byte tracked, zero-sized tracked, u8, u64}; oracle: flat[i*N+j] is inner[i][j] by identity, unflatten is the exact "
              "inverse, the owned forms drop nothing (ledger), the reference forms return (same address, same byte extent, N*M resp. M elements) and a write at every index (lattice above 36 elements) through the &mut regrouped view appears at the computed "
              "index of the original. Non-trivial = N*M > 0."),
